@@ -121,8 +121,22 @@ def _collect(drv, jobs, pid, cov_key, cov, violations, inconclusive, kind):
 def run(drv, tier, seed, cov, violations, inconclusive):
     cov.setdefault("sanitizers", {})["overflow_and_ub_checks"] = "chk builds: overflow-checks, debug-assertions and std unsafe-precondition checks live in every call counted above"
     if tier != "thorough":
-        cov["sanitizers"]["miri"] = "thorough tier"
+        # every change: the Miri-sized workload in the no-allocator configuration (where the one
+        # unsafe block and the fixed-capacity containers live), 8 processes. If Miri cannot be
+        # built here the evidence says so; that is not a verdict.
         cov["sanitizers"]["asan"] = "thorough tier"
+        ok, msg = miri_warm(drv, "none")
+        if not ok:
+            cov["sanitizers"]["miri"] = "unavailable in this environment (not a verdict): " + msg[-200:]
+            return
+        with cf.ThreadPoolExecutor(max_workers=8) as ex:
+            jobs = list(ex.map(lambda s: run_miri(drv, "none", "C01M", seed, s, 8, timeout=900), range(8)))
+        # in the quick tier a Miri process that could not run is not allowed to make the check
+        # inconclusive; only reports and reproducible panics count
+        quick_inconclusive = []
+        _collect(drv, jobs, "C01", "miri", cov, violations, quick_inconclusive, "miri")
+        if quick_inconclusive:
+            cov["sanitizers"]["miri_notes"] = quick_inconclusive
         return
     os.makedirs(drv.WORK, exist_ok=True)
     # AddressSanitizer
@@ -147,6 +161,63 @@ def run(drv, tier, seed, cov, violations, inconclusive):
         with cf.ThreadPoolExecutor(max_workers=drv.NCPU) as ex:
             jobs += list(ex.map(lambda s: run_miri(drv, cfg, "C01M", seed, s, drv.NCPU), range(drv.NCPU)))
     _collect(drv, jobs, "C01", "miri", cov, violations, inconclusive, "miri")
+    coverage_layer(drv, seed, cov)
+
+
+def coverage_layer(drv, seed, cov):
+    """Measured, not assumed: which regions of /repo/src do the workloads of all checks reach?
+    A -Cinstrument-coverage build of the harness (std configuration) runs one shard of every
+    workload; llvm-profdata / llvm-cov from the nightly sysroot report per-file region coverage.
+    Informational: a failure here only leaves a note in the evidence."""
+    import glob
+    import shutil
+    try:
+        sysroot = subprocess.run(["rustc", "+nightly", "--print", "sysroot"], stdout=subprocess.PIPE, text=True, env=drv.ENV).stdout.strip()
+        tools = os.path.join(sysroot, "lib", "rustlib", "x86_64-unknown-linux-gnu", "bin")
+        if not os.path.exists(os.path.join(tools, "llvm-cov")):
+            cov["repo_region_coverage"] = "unavailable: llvm-tools not in the nightly sysroot"
+            return
+        tdir = os.path.join(drv.BUILD, "cov-std")
+        env = _cargo_env(drv, {"RUSTFLAGS": "-Cinstrument-coverage"})
+        p = subprocess.run(["cargo", "+nightly", "build", "--offline", "--profile", "chk", "--manifest-path", os.path.join(drv.HARNESS, "Cargo.toml"),
+                            "--features", "cfg_std", "--target-dir", tdir], env=env, stdout=subprocess.PIPE, stderr=subprocess.STDOUT, text=True)
+        if p.returncode != 0:
+            cov["repo_region_coverage"] = "unavailable: coverage build failed"
+            return
+        binp = os.path.join(tdir, "chk", "aismon")
+        pdir = os.path.join(drv.WORK, "covprof")
+        shutil.rmtree(pdir, ignore_errors=True)
+        os.makedirs(pdir)
+        wl = ["C%02d" % i for i in range(1, 20)]
+
+        def one(c):
+            e = dict(drv.ENV)
+            e["LLVM_PROFILE_FILE"] = os.path.join(pdir, c + "-%p.profraw")
+            subprocess.run([binp, "run", c, "--tier", "quick", "--seed", str(seed), "--shard", "0", "--nshards", "64", "--out", os.devnull],
+                           env=e, stdout=subprocess.DEVNULL, stderr=subprocess.DEVNULL, timeout=1800)
+        with cf.ThreadPoolExecutor(max_workers=drv.NCPU) as ex:
+            list(ex.map(one, wl))
+        prof = os.path.join(pdir, "all.profdata")
+        subprocess.run([os.path.join(tools, "llvm-profdata"), "merge", "-sparse"] + glob.glob(os.path.join(pdir, "*.profraw")) + ["-o", prof], check=True)
+        q = subprocess.run([os.path.join(tools, "llvm-cov"), "export", "-summary-only", binp, "-instr-profile=" + prof,
+                            "--ignore-filename-regex=(harness|registry|rustc|library)"], stdout=subprocess.PIPE, check=True)
+        data = json.loads(q.stdout.decode())["data"][0]
+        files = {}
+        for f in data["files"]:
+            name = f["filename"].split("/src/", 1)[-1]
+            files[name] = {"regions": f["summary"]["regions"]["count"], "regions_covered": f["summary"]["regions"]["covered"],
+                           "lines": f["summary"]["lines"]["count"], "lines_covered": f["summary"]["lines"]["covered"]}
+        t = data["totals"]
+        cov["repo_region_coverage"] = {
+            "workloads": wl, "shard": "0 of 64 of each workload, std configuration",
+            "total_regions": t["regions"]["count"], "total_regions_covered": t["regions"]["covered"],
+            "total_lines": t["lines"]["count"], "total_lines_covered": t["lines"]["covered"],
+            "files": files,
+            "note": "regions never executed: the AisMessageType::name() methods, the Display impl and string conversions of errors.rs, and arms that cannot be reached from a take of the stated width (unreachable!(), sync state > 3, 4-bit codes > 15, parse_radio for other types)",
+        }
+        shutil.rmtree(pdir, ignore_errors=True)
+    except Exception as e:  # noqa
+        cov["repo_region_coverage"] = "unavailable: %r" % (e,)
 
 
 def run_c17_threads(drv, tier, seed, cov, violations, inconclusive):
